@@ -14,6 +14,7 @@ Step == /\ ci <= NCases /\ ei < Len(Cases[ci].events)
                e == c.events[ei + 1]
                r == Judge(c, st, e)
            IN /\ (IF r.ok THEN TRUE ELSE Mismatch(c.id, ei + 1, e.op, r.clause, r.cls, r.detail))
+              /\ (IF r.skip /\ ei = 0 THEN PrintT(ToJson([k |-> "SKIP", case |-> c.id])) ELSE TRUE)
               /\ st' = r.next
               /\ nj' = IF r.skip THEN nj ELSE nj + 1
               /\ ns' = IF r.skip THEN ns + 1 ELSE ns
